@@ -145,6 +145,17 @@ def run(ctx):
             i = int(np.flatnonzero(badb | badr)[0])
             ctx.violation("bounded", f"table v{version}: P_exit(logE={loge[i]!r}, beta={beta[i]!r}) = {got[i]!r} outside the surrounding nodes [{lo[i]!r}, {hi[i]!r}] or outside (0,1]", {"version": version, "loge": float(loge[i]).hex(), "beta": float(beta[i]).hex()})
         ctx.distinct.add_rows(np.full(n, version), loge, beta)
+        # ---- Taus.__call__ hands the exit probability on to the integral: same values with the
+        #      diagnostic plots requested (angles above the maximum and floored cells included)
+        from .. import plotobs, rngctl
+
+        def _call(o, kw, b_, le_):
+            with rngctl.stub(rngctl.constant(0.4375)):
+                return o(b_, le_, **kw)[4]
+
+        sel = np.flatnonzero(beta <= bmax)[:400]  # (above the maximum the tau stage's speed is NaN and the plots cannot bin it)
+        if plotobs.check_stage(ctx, f"table v{version}: Taus.__call__ (exit probability)", lambda: type(tau)(tau.config), _call, (beta[sel], loge[sel]), "interp"):
+            pass
         if version == 3:
             for i in range(3):
                 ctx.sample({"version": version, "log_e_nu": float(loge[i]), "beta_rad": float(beta[i]), "pexit": float(got[i])})
@@ -212,7 +223,7 @@ def run(ctx):
                 if not np.allclose(d, pf, rtol=0, atol=0):
                     ctx.observe(f"v{version}_object_table_differs_from_floored_table", True)
     ctx.exhaustive_subspaces.append("all 25 x 51 nodes of nu2tau_pexit versions 1, 2, 3")
-    for m in ("nodes", "layout", "interp", "bounded", "clamp", "reject", "history"):
+    for m in ("nodes", "layout", "plots", "interp", "bounded", "clamp", "reject", "history"):
         ctx.require(m)
     return ctx.finish(
         rule="per table version: all nodes; random (logE, beta) incl. node-aligned, cell-midpoint, below-min, above-max and one-ulp-off-the-clamp angles, logE exactly 6 and 12; a case is a distinct (version, logE, beta); non-trivial = any point (each exercises the interpolation or a clamp)",
